@@ -161,8 +161,19 @@ def st_case(draw):
     if kind == "ab":
         if draw(st.booleans()):
             c = draw(c02.st_case())
-            return {"kind": "ab", "mode": c["mode"], "a": c["pts"][0],
-                    "b": c["pts"][-1]}
+            a, b = c["pts"][0], c["pts"][-1]
+            ia = M.kw_instant(R.canon(c["mode"]), a)
+            if ia.denominator == 1 and M.kw_form(a) == "hms" and \
+                    draw(st.integers(0, 3)) == 0:
+                # less than a second apart (dyadic fractions: exact floats):
+                # the same whole second in another spelling, plus fractions
+                cm = R.canon(c["mode"])
+                a = dict(a, second_of_minute_decimal=draw(
+                    st.sampled_from([0.0, 0.25, 0.5, 0.75])))
+                b = G.respell(draw, cm, int(ia), allow24=False)
+                b["second_of_minute_decimal"] = draw(
+                    st.sampled_from([0.0, 0.25, 0.5, 0.75]))
+            return {"kind": "ab", "mode": c["mode"], "a": a, "b": b}
         mode = draw(G.MODE_WEIGHTED)
         cm = R.canon(mode)
         dec = draw(st.sampled_from([False, False, True]))
